@@ -59,6 +59,19 @@ def _chan(m, chs):
     return 99
 
 
+def _cell(cell):
+    """compact encoding of one (object, iteration) observation; mirrors PollerObs.obs_cell"""
+    codes = []
+    for l in cell[:3]:
+        if not l:
+            codes.append(0)
+        elif len(l) == 1 and l[0] < 3:
+            codes.append(l[0] + 1)
+        else:
+            return cell
+    return codes[0] + 4 * codes[1] + 16 * codes[2] + 64 * int(cell[3]) + 128 * int(cell[4])
+
+
 def probe(fno):
     """kernel ground truth for one open number, independent of the pollers under test"""
     p = select.poll()
@@ -90,6 +103,13 @@ def run_history(kind, ops):
             if k == 'open':
                 o, f = op[1], op[2]
                 x, y = socket.socketpair()
+                if x.fileno() >= BASE or y.fileno() >= BASE:
+                    raise RuntimeError('harness: descriptor table too full for the reserved number range')
+                try:
+                    os.fstat(BASE + f)
+                    raise RuntimeError('harness: number %d is in use' % (BASE + f))
+                except OSError:
+                    pass
                 os.dup2(x.fileno(), BASE + f)
                 a = Sock(fileno=BASE + f)
                 x.close()
@@ -304,8 +324,8 @@ class C10(Prop):
     id = 'C10'
     props_file = 'Props/C10.v'
     imports = ['Model.Poller', 'Model.PollerObs']
-    quick_n = 260
-    thorough_n = 4000
+    quick_n = 220
+    thorough_n = 1800
     rule = ('histories of open/close (number space of 3, reuse preferred), add/remove reader and writer, discard, peer '
             'write / drain / fill send buffer / unfill / peer close, and zero-timeout iterations over real socketpairs, '
             'run on the real Select, Poll and EPoll; three generator modes (API discipline; close while registered and '
@@ -331,7 +351,7 @@ class C10(Prop):
         for i in range(n):
             r = rng.random()
             mode = 'disc' if r < 0.45 else ('close' if r < 0.85 else 'wild')
-            ops = gen_history(rng, mode, rng.randint(6, 22 if tier == 'quick' else 40))
+            ops = gen_history(rng, mode, rng.randint(6, 22 if tier == "quick" else 32))
             cases.append({'k': 'hist', 'mode': mode, 'ops': ops})
         return cases
 
@@ -371,7 +391,7 @@ class C10(Prop):
     def obs_for_model(self, c, obs):
         if isinstance(obs, dict) and '__crash__' in obs:
             return [-999]
-        return [[obs[k]['ticks'], obs[k]['end']] for k in KINDS]
+        return [[[[_cell(c_) for c_ in row] for row in obs[k]['ticks']], obs[k]['end']] for k in KINDS]
 
     # ---- model
     def model_term(self, c):
@@ -413,6 +433,8 @@ class C10(Prop):
                 # everything after the last observed tick is kept, the model stops at its own crash
                 pass
             hs.append('[%s]' % '; '.join(l))
+        if hs[0] == hs[1] == hs[2]:
+            return '(obs_hist1 [%s]%%nat (%s)%%nat)' % (';'.join(map(str, pool)), hs[0])
         return '(obs_hist [%s]%%nat (%s)%%nat (%s)%%nat (%s)%%nat)' % (';'.join(map(str, pool)), hs[0], hs[1], hs[2])
 
     # ---- oracle: direct reading of the property on the real pollers' behaviour
